@@ -11,7 +11,10 @@
      solver._gather_dof_vecs_compact / _gather_rhs_compact (one vector)     -> gather_vec
      solver._scatter_dof_vecs / _scatter_solution (one vector)              -> scatter_vec
      io._nvmax_pad                                                          -> nvmax_pad
-     io._allocate_compact_arrays: ctol = tol * (nv / nvmax_pad)             -> (Proof/Compact.v, over R)
+     solver._compact_tolerance + the host scale float(m.nv) / float(nvp)    -> compact_tolerance
+       (solve_compact rescales the CURRENT m.opt.tolerance, per world; ls_tolerance is passed through)
+     the linesearch gradient tolerance of _linesearch_iterative_kernel      -> ls_gtol
+     solver._solve_init_dof(warmstart, sparse) with the flag _solve passes  -> solve_init_dof, init_dof_sparse_flag
 
    Conventions
    * `for x in range(n)` is a fold_left over [zseq n] = [0; 1; ...; n-1]; a launch over a grid is
@@ -23,6 +26,7 @@
    * Array element values are an abstract type T with [zero] and [one] (copied, never computed
      with): instantiated with Z for the correspondence runs and with R for the theorems. *)
 From Coq Require Import ZArith List Bool.
+From VF Require Import Base.Scalar.
 Import ListNotations.
 Local Open Scope Z_scope.
 
@@ -154,6 +158,32 @@ Section Gather.
   Definition scatter_vec (nv : Z) (dofc : list Z) (x : list T) : list T :=
     map (fun i => let ci := cget dofc i in if ci >=? 0 then cgetd zero x ci else zero) (zseq nv).
 End Gather.
+
+(* ---------------- solver entry on the compacted problem ---------------- *)
+(* _solve: wp.launch(_solve_init_dof(warmstart, m.is_sparse or _sparse_compact(ctx)), ...).
+   Under solve_compact m is the dense shadow model (is_sparse = False) and _sparse_compact(ctx) holds
+   iff the FULL model is sparse. *)
+Definition init_dof_sparse_flag (m_is_sparse full_is_sparse_compact : bool) : bool :=
+  m_is_sparse || full_is_sparse_compact.
+
+(* _solve_init_dof kernel over dim (nv), one world:
+     qacc_out[dofid] = qacc_warmstart_in[dofid] if WARMSTART else qacc_smooth_in[dofid]
+     if SPARSE: if nefc_in[worldid] == 0: qfrc_constraint_out[dofid] = 0.0
+   returns (qacc, qfrc_constraint); the arrays have nv entries. *)
+Definition solve_init_dof {T : Type} (zero : T) (warmstart sparse : bool) (nefc : Z)
+           (qacc_warmstart qacc_smooth qfrc_constraint : list T) : list T * list T :=
+  (if warmstart then qacc_warmstart else qacc_smooth,
+   if sparse && (nefc =? 0) then map (fun _ => zero) qfrc_constraint else qfrc_constraint).
+
+Section Tol.
+  Context {S : Type} `{Scalar S}.
+  (* host: scale = float(m.nv) / float(nvp); kernel _compact_tolerance: ctol[i] = opt_tolerance[i] * scale *)
+  Definition compact_tolerance (tol : S) (nv nvp : Z) : S := smul tol (sdiv (sofZ nv) (sofZ nvp)).
+  (* _linesearch_iterative_kernel: scale = meaninertia * float(nv);
+     gtol = wp.max(tolerance * ls_tolerance * snorm * scale, 1e-6) *)
+  Definition ls_gtol (nv : Z) (mi tol lstol snorm : S) : S :=
+    smax (smul (smul (smul tol lstol) snorm) (smul mi (sofZ nv))) (slit 1 1000000).
+End Tol.
 
 (* observables for the correspondence runs *)
 Definition obs_compact (r : cresult) : list Z :=
